@@ -652,9 +652,9 @@ impl Tcb {
         final(self).outgoing.retransmit@.len() <= old(self).outgoing.retransmit@.len(),
         // only acknowledged segments leave the queue, everything kept was there before
         forall|k: int| 0 <= k < final(self).outgoing.retransmit@.len() ==>
-            old(self).outgoing.retransmit@.contains(#[trigger] final(self).outgoing.retransmit@[k]) && !fully_acked(final(self).outgoing.retransmit@[k], snd_una),   //# keeps_only_unacknowledged [C01]
+            old(self).outgoing.retransmit@.contains(#[trigger] final(self).outgoing.retransmit@[k]) && !fully_acked(final(self).outgoing.retransmit@[k], snd_una),   //# keeps_only_unacknowledged [C01,C12]
         forall|j: int| 0 <= j < old(self).outgoing.retransmit@.len() && !fully_acked(#[trigger] old(self).outgoing.retransmit@[j], snd_una) ==>
-            final(self).outgoing.retransmit@.contains(old(self).outgoing.retransmit@[j]),   //# never_drops_unacknowledged [C01]
+            final(self).outgoing.retransmit@.contains(old(self).outgoing.retransmit@[j]),   //# never_drops_unacknowledged [C01,C12]
 //@ loop 1
             invariant
                 same_but_queues(*self, *old(self)),
@@ -713,7 +713,7 @@ impl Tcb {
         r == ProcessSegmentResult::InvalidAck ==> final(self).snd == old(self).snd && final(self).outgoing.retransmit@ == old(self).outgoing.retransmit@,
         // SND.UNA only ever advances, and only to an acknowledgment inside (SND.UNA, SND.NXT]
         final(self).snd.una == old(self).snd.una
-            || (final(self).snd.una == seg.ack && !circ_lt(old(self).snd.nxt, seg.ack) && seg.ack != old(self).snd.una),   //# una_advances_within_sent_data [C17,C01]
+            || (final(self).snd.una == seg.ack && !circ_lt(old(self).snd.nxt, seg.ack) && seg.ack != old(self).snd.una),   //# una_advances_within_sent_data [C17,C01,C12]
         // ... and it advances exactly for an acknowledgment inside (SND.UNA, SND.NXT] in the circular order (C12: no absolute comparison)
         (final(self).snd.una == seg.ack && seg.ack != old(self).snd.una)
             == (!circ_leq(seg.ack, old(self).snd.una) && seg.ack != old(self).snd.una && !circ_lt(old(self).snd.nxt, seg.ack)),   //# una_advances_exactly_for_acks_of_outstanding_data [C12,C17]
@@ -863,7 +863,7 @@ impl Tcb {
         final(self).outgoing.retransmit@.len() >= old(self).outgoing.retransmit@.len(),
         same_segments(final(self).outgoing.retransmit@.subrange(0, old(self).outgoing.retransmit@.len() as int), old(self).outgoing.retransmit@),   //# queued_segments_untouched [C01]
         rtx_tiles(final(self).outgoing.retransmit@, old(self).outgoing.retransmit@.len() as int, old(self).snd.nxt,
-            old(self).outgoing.text@.subrange(0, old(self).outgoing.text@.len() - final(self).outgoing.text@.len())),   //# new_segments_carry_the_stream_in_order [C01]
+            old(self).outgoing.text@.subrange(0, old(self).outgoing.text@.len() - final(self).outgoing.text@.len())),   //# new_segments_carry_the_stream_in_order [C01,C12]
         // data is only segmentized in the states that may send
         !(old(self).state == State::SynSent || old(self).state == State::SynReceived || old(self).state == State::Established || old(self).state == State::CloseWait)
             ==> final(self).outgoing.text@.len() == old(self).outgoing.text@.len(),   //# no_new_data_after_close [C03,C01]
@@ -1073,7 +1073,7 @@ impl Tcb {
             && !seq_acceptable(old(self).rcv.nxt, old(self).rcv.wnd, segment.text@.len() as u32, segment.header.seq, segment.header.ctl.ssyn(), segment.header.ctl.sfin()))
             ==> (r == ProcessSegmentResult::DiscardSegment && final(self).state == old(self).state && final(self).rcv == old(self).rcv
                  && final(self).snd == old(self).snd && final(self).incoming.text@ == old(self).incoming.text@
-                 && final(self).outgoing.retransmit@ == old(self).outgoing.retransmit@ && final(self).timeouts == old(self).timeouts),   //# out_of_window_segment_is_inert [C17]
+                 && final(self).outgoing.retransmit@ == old(self).outgoing.retransmit@ && final(self).timeouts == old(self).timeouts),   //# out_of_window_segment_is_inert [C17,C12]
         // (C17, C01) while waiting for a SYN, a segment with neither SYN nor RST changes nothing
         (old(self).state == State::SynSent && !segment.header.ctl.ssyn() && !segment.header.ctl.srst())
             ==> (final(self).state == State::SynSent && final(self).rcv == old(self).rcv && final(self).incoming.text@ == old(self).incoming.text@),   //# syn_sent_ignores_segments_without_syn_or_rst [C17,C01]
@@ -1092,32 +1092,32 @@ impl Tcb {
             &&& (final(self).rcv.nxt == add32(old(self).rcv.nxt, a as u32)
                  || (segment.header.ctl.sfin() && final(self).rcv.nxt == add32(old(self).rcv.nxt, (a + 1) as u32)))
             &&& final(self).rcv.irs == old(self).rcv.irs
-        }),   //# appended_bytes_continue_the_stream [C01]
+        }),   //# appended_bytes_continue_the_stream [C01,C12]
         // (C01, C03) RFC 9293 3.10.7.4 seventh: in ESTABLISHED / FIN-WAIT-1 / FIN-WAIT-2 acceptable text is taken, as far as the buffer has room
         ((old(self).state == State::Established || old(self).state == State::FinWait1 || old(self).state == State::FinWait2)
             && r == ProcessSegmentResult::Success && !segment.header.ctl.ssyn() && !segment.header.ctl.srst()
             && seq_acceptable(old(self).rcv.nxt, old(self).rcv.wnd, segment.text@.len() as u32, segment.header.seq, false, segment.header.ctl.sfin())
             && cdist(segment.header.seq, old(self).rcv.nxt) <= segment.text@.len())
-            ==> final(self).incoming.text@.len() - old(self).incoming.text@.len() == vstd::math::min(segment.text@.len() - cdist(segment.header.seq, old(self).rcv.nxt), 65535 - old(self).incoming.text@.len()),   //# acceptable_text_is_delivered [C01,C03]
+            ==> final(self).incoming.text@.len() - old(self).incoming.text@.len() == vstd::math::min(segment.text@.len() - cdist(segment.header.seq, old(self).rcv.nxt), 65535 - old(self).incoming.text@.len()),   //# acceptable_text_is_delivered [C01,C03,C12]
         // (C03, C01) RFC 9293 3.10.7.4 eighth: a FIN all of whose preceding text has been received is acknowledged -
         //            also when it is a retransmission of a FIN that was consumed before (otherwise a lost ACK is never regenerated)
         (old(self).state != State::SynSent && r == ProcessSegmentResult::Success && segment.header.ctl.sfin()
             && final(self).rcv.nxt == add32(segment.header.seq, (segment.text@.len() + 1) as u32))
             ==> (final(self).outgoing.oneshot@.len() > 0 && final(self).outgoing.oneshot@.last().ctl.sack()
-                 && final(self).outgoing.oneshot@.last().ack == final(self).rcv.nxt && !final(self).outgoing.oneshot@.last().ctl.srst()),   //# fin_is_acknowledged_even_when_retransmitted [C03,C01]
+                 && final(self).outgoing.oneshot@.last().ack == final(self).rcv.nxt && !final(self).outgoing.oneshot@.last().ctl.srst()),   //# fin_is_acknowledged_even_when_retransmitted [C03,C01,C12]
         // (C17) the send window only ever takes the value the peer advertised; SND.UNA never passes SND.NXT by this call
         final(self).snd.wnd == old(self).snd.wnd || final(self).snd.wnd == segment.header.wnd,   //# window_from_peer_only [C17]
 //@ end
 
 //@ item sim/elvis-core/src/protocols/tcp/tcb.rs :: impl Tcb / fn is_in_rcv_window id=Tcb.is_in_rcv_window
 //@ contract
-    ensures r == in_win(self.rcv.nxt, self.rcv.wnd, n),   //# window_with_left_slack [C17,C01]
+    ensures r == in_win(self.rcv.nxt, self.rcv.wnd, n),   //# window_with_left_slack [C17,C01,C12]
 //@ end
 
 //@ item sim/elvis-core/src/protocols/tcp/tcb.rs :: impl Tcb / fn is_seq_ok id=Tcb.is_seq_ok
 //@ contract
     requires data_len <= 65535,
-    ensures r == seq_acceptable(self.rcv.nxt, self.rcv.wnd, data_len, seq, syn, fin),   //# rfc9293_table6 [C17,C01]
+    ensures r == seq_acceptable(self.rcv.nxt, self.rcv.wnd, data_len, seq, syn, fin),   //# rfc9293_table6 [C17,C01,C12]
 //@ start
         proof { reveal(seq_acceptable); }
 //@ end
